@@ -7,6 +7,7 @@ Open Scope N_scope.
 Record wlist := { wl_from : N; wl_max : nat; wl_obs : option (list (N * string)) }.
 Record wcase := { wa_appends : list (N * string);
   wa_seconds : list N;      (* for each appended entry, by how many seconds the clock had been moved when it was appended *)
+  wa_refused : nat;         (* appends the log refused although the store was healthy *)
   wa_lists : list wlist }.
 
 Definition entry_eqb (a b : N * string) : bool := (fst a =? fst b) && String.eqb (snd a) (snd b).
@@ -35,6 +36,8 @@ Definition count_if {A} (f : A -> bool) (l : list A) : nat := List.length (filte
 (* the statement, on the appended entries and the observed listings alone *)
 Definition spec_ok (c : wcase) : bool :=
   let apps := wa_appends c in
+  (* every append is taken *)
+  Nat.eqb (wa_refused c) 0 &&
   (* unique tokens *)
   forallb (fun e => Nat.eqb (count_if (fun e' => fst e =? fst e') apps) 1) apps &&
   (* a token issued after the clock was moved on by two seconds or more sorts after the earlier ones
